@@ -1086,6 +1086,33 @@ async fn history(args: &Value) -> Value {
 /// C08, last sentence: the async runtime is torn down (dropped, with a bounded shutdown_timeout) at a chosen moment -- right after the networks started, with
 /// RPCs and a dial in flight, while a shutdown is running, after it finished -- with handles to the networks still alive and used afterwards.  Each moment
 /// runs on a thread of its own; reported: did it panic, did it come back within 10 s.
+/// C08: explicit shutdown issued while `connect` calls saturate the connection manager's mailbox (capacity 2, 8 dials to a silent socket and the shutdown
+/// all issued in one poll, current-thread runtime): "completes ... whatever is in flight".
+async fn shutdown_full_mailbox(_a: &Value) -> Value {
+    let silent = std::net::UdpSocket::bind((std::net::Ipv4Addr::LOCALHOST, 0)).unwrap();
+    let silent_addr = silent.local_addr().unwrap();
+    let mut c = Config::default();
+    c.connection_manager_channel_capacity = Some(2);
+    c.connect_timeout_ms = Some(2_000);
+    c.shutdown_idle_timeout_ms = Some(3_000);
+    let n = anemo::Network::bind("127.0.0.1:0").server_name("verif").private_key([141; 32]).config(c).start(echo()).expect("network");
+    let addr = n.local_addr();
+    let weak = n.downgrade();
+    let connects = futures::future::join_all((0..8).map(|_| n.connect(silent_addr)));
+    let shutdown = n.shutdown();
+    let t0 = std::time::Instant::now();
+    let joined = tokio::time::timeout(Duration::from_secs(15), futures::future::join(connects, shutdown)).await;
+    let took = t0.elapsed().as_millis() as u64;
+    let (returned, shutdown_ok, pending_connects_failed) = match &joined {
+        Ok((cs, s)) => (true, s.is_ok(), cs.iter().filter(|r| r.is_err()).count()),
+        Err(_) => (false, false, 0),
+    };
+    let later_connect = match tokio::time::timeout(Duration::from_secs(5), n.connect(silent_addr)).await { Ok(Ok(_)) => "ok", Ok(Err(_)) => "error", Err(_) => "hangs" };
+    let rebind = std::net::UdpSocket::bind(addr).is_ok();
+    json!({"returned": returned, "took_ms": took, "shutdown_ok": shutdown_ok, "pending_connects_failed": pending_connects_failed, "is_closed": n.is_closed(), "peers": n.peers().len(),
+           "weak_reference_upgrades": weak.upgrade().is_some(), "connect_after_shutdown": later_connect, "rebind_at_once": rebind})
+}
+
 fn runtime_teardown() -> Value {
     let mut out = Vec::new();
     for moment in ["just_started", "traffic_in_flight", "during_shutdown", "after_shutdown"] {
@@ -1279,6 +1306,7 @@ async fn run(args: Vec<String>) {
         "abandoned_rpcs" => abandoned_rpcs(&a).await,
         "backpressure_service" => backpressure_service(&a).await,
         "shutdown_scenario" => shutdown_scenario(&a).await,
+        "shutdown_full_mailbox" => shutdown_full_mailbox(&a).await,
         "codegen_routes" => codegen::codegen_routes(&a).await,
         "typed_rpc_roundtrip" => hostile::typed_rpc_roundtrip(&a).await,
         "abrupt_close" | "abrupt_close_mt" => hostile::abrupt_close(&a).await,
